@@ -185,6 +185,10 @@ def programs(draw, backend="pandas"):
                 if invalid:
                     if len(names) >= 2 and flag(0.5):
                         op = {"op": kind, "map": {names[0]: names[1]}}
+                        if len(names) % 2 == 1:
+                            # the target also maps to itself (e.g. {c: c.lower() for c in columns}): the self-mapping is a
+                            # no-op, the collision stays.  Decided from the case, no extra draw: other cases keep theirs.
+                            op["map"][names[1]] = names[1]
                     else:
                         op = {"op": kind, "map": {"zz": "zy"}}
                 else:
